@@ -157,7 +157,10 @@ def cases(run, rng):
             FAIL.append({"kind": "for_() changes identity (== or hash)", "a": d})
     # schemas, aliased queries, builders
     S = [Q.Schema("s"), Q.Schema("s"), Q.Schema("s", parent=Q.Schema("db")), Q.Database("db").s, Q.Schema("t")]
-    AQ = [Q.AliasedQuery("c"), Q.AliasedQuery("c").as_("x"), Q.Cte("c", P.Query.from_("t").select("a")), Q.AliasedQuery("d"), Q.AliasedQuery("d", P.Query.from_("t").select("a"))]
+    AQ = [Q.AliasedQuery("c"), Q.AliasedQuery("c").as_("x"), Q.Cte("c", P.Query.from_("t").select("a")), Q.AliasedQuery("d"), Q.AliasedQuery("d", P.Query.from_("t").select("a")),
+          # the same name around different things: an aliased sub-query, a table, another class's query
+          Q.Cte("c", P.Query.from_("t").select("a").as_("x")), Q.AliasedQuery("c", P.Table("t")), Q.Cte("c", PostgreSQLQuery.from_("u").select("b").as_("y")),
+          Q.AliasedQuery("d", P.Table("t", alias="ta"))]
     t1, t2 = P.Table("t"), P.Table("u")
     QB = [P.Query.from_(t1).select("a"), P.Query.from_(t2).select("b"), P.Query.from_(t1).select("a").as_("x"), PostgreSQLQuery.from_(t2).select("b").as_("x"),
           P.Query.from_(t1).select("a").as_("y")]
